@@ -287,7 +287,7 @@ func init() {
 		Explanation: "Decides, for every input and schedule, the structural clause 'on the query result path no error is dropped and every error reaches the caller or the failure bookkeeping': errflow rules over the SSA form of every call site of a result producer, plus dominance rules for the success bookkeeping (cache succeed, NumSuccessfulPartitions) and the scan-continuation rule (a scan never ends by itself with a nil error).",
 		NotDecided:  []string{"whether deadlines/timeouts fire at the right time", "gRPC transport failures below the stream API", "os.IsNotExist on the data file being served as 'no file yet' (reading note)"},
 		Assumptions: []string{"go/ssa models the control flow of the compiled program", "wrapper functions (fmt.Errorf, golog Errorf, errors.New) return a non-nil error carrying their argument"},
-		Rules:       []func(*Ctx){ruleC13a, ruleC13w, ruleC13b, ruleC13d, ruleC13e, ruleC13f},
+		Rules:       []func(*Ctx){ruleC13a, ruleC13w, ruleC13b, ruleC13d, ruleC13e, ruleC13f, ruleC13g},
 	})
 }
 
@@ -704,4 +704,90 @@ func lineOf(c *Ctx, p token.Pos) int {
 		return 0
 	}
 	return c.P.Fset.Position(p).Line
+}
+
+// ruleC13g: universal E1 on the result path — no error returned by a module
+// function is dropped in the packages that build, run and serve queries.
+var c13DropExceptions = map[string]string{
+	"(*z/web.handler).execQuery drops the error of (*z/web.cache).put": "a failed cache write leaves the entry pending (the client is answered 202/‘still working’); it can never present an incomplete result as a success",
+}
+
+func ruleC13g(c *Ctx) {
+	const rule = "C13.g"
+	c.describe(rule, "errflow E1 (universal): in packages zenodb (query path files), core, planner, rpc, rpc/server and web no error result of a call to a module function is dropped (unused, assigned to _ or an expression statement); logging helpers that return the error they log are exempt")
+	pkgs := map[string]bool{"z/core": true, "z/planner": true, "z/rpc": true, "z/rpc/server": true, "z/web": true, "z": true}
+	n, nBad := 0, 0
+	for _, fn := range c.P.ModFns {
+		if !pkgs[pkgOf(fn)] {
+			continue
+		}
+		for _, call := range calls(fn) {
+			cc := call.Common()
+			if !sigHasError(cc.Signature()) {
+				continue
+			}
+			// module callee (static, interface method declared in the module, or func-typed value)
+			isMod := false
+			if sc := cc.StaticCallee(); sc != nil {
+				isMod = inModule(sc)
+			} else if cc.IsInvoke() {
+				isMod = cc.Method.Pkg() != nil && strings.HasPrefix(cc.Method.Pkg().Path(), modPath)
+			} else {
+				isMod = true
+			}
+			if !isMod {
+				continue
+			}
+			if _, isGo := call.(*ssa.Go); isGo {
+				continue
+			}
+			if _, isDefer := call.(*ssa.Defer); isDefer {
+				continue
+			}
+			n++
+			if e, _ := errValueOf(call); e != nil {
+				continue
+			}
+			inst := stableName(fn) + " drops the error of " + calleeName(call)
+			if calleeName(call) == "dynamic" {
+				inst = stableName(fn) + " drops the error of callback " + dynName(cc.Value)
+			}
+			if why, ok := c13DropExceptions[inst]; ok {
+				c.ok(rule, inst, call.Pos(), "reviewed exception: "+why)
+				continue
+			}
+			if why, ok := c13Exceptions[stableName(fn)+" -> callback "+dynName(cc.Value)+" "+typeStr(cc.Value.Type())]; ok {
+				c.ok(rule, inst, call.Pos(), "reviewed exception: "+why)
+				continue
+			}
+			if nf, names := calleesNeverFail(c.P, call); nf {
+				c.ok(rule, inst, call.Pos(), "callee(s) never return a non-nil error: "+strings.Join(names, ", "))
+				continue
+			}
+			// immediately followed (same block) by the fatal Panic hook: the process stops anyway
+			fatalNext := false
+			if b := call.Block(); b != nil {
+				after := false
+				for _, in := range b.Instrs {
+					if in == ssa.Instruction(call) {
+						after = true
+						continue
+					}
+					if after && isFatalCall(in) {
+						fatalNext = true
+					}
+				}
+			}
+			if fatalNext {
+				c.ok(rule, inst, call.Pos(), "best-effort call on a path that ends in the fatal Panic hook in the same block")
+				continue
+			}
+			nBad++
+			c.bad(rule, inst, call.Pos(), "an error returned by a module function is dropped on the query/serving path")
+		}
+	}
+	c.floor(rule, "error-returning module calls examined", n, 100)
+	if nBad == 0 {
+		c.ok(rule, "no dropped module errors on the query/serving path", token.NoPos, itoa(n)+" error-returning calls to module functions examined in packages zenodb, core, planner, rpc, rpc/server, web")
+	}
 }
